@@ -23,6 +23,14 @@ def keyclass(fam, rng, extra):
     return sorted(ks)
 
 
+class OldSeq:
+    def __init__(self, xs):
+        self.xs = list(xs)
+
+    def __getitem__(self, i):
+        return self.xs[i]
+
+
 def main():
     job = json.load(open(sys.argv[1]))
     from harness import embed
@@ -54,7 +62,7 @@ def main():
                          base[2 * n3:], base[:1]]
             ops_model, ops_real = [], []
             for pi_, p in enumerate(parts):
-                kind = rng.choice(['Set', 'TreeSet', 'Bucket', 'BTree', 'list', 'tuple', 'int', 'set', 'iter'])
+                kind = rng.choice(['Set', 'TreeSet', 'Bucket', 'BTree', 'list', 'tuple', 'int', 'set', 'iter', 'oldseq', 'gen', 'keysview', 'valuesview', 'dictkeys', 'itemsless'])
                 if rep == 1 and total >= 2:
                     kind = ['Set', 'Set', 'Bucket', 'TreeSet', 'Set', 'BTree', 'Set'][pi_ % 7]
                 keys = [K[r - 1] for r in p]
@@ -79,6 +87,19 @@ def main():
                     ops_real.append(tuple(keys))
                 elif kind == 'set':
                     ops_real.append(set(keys))
+                elif kind == 'oldseq':
+                    ops_real.append(OldSeq(keys))             # iterable through the old sequence protocol only
+                elif kind == 'gen':
+                    ops_real.append((k for k in list(keys)))
+                elif kind == 'keysview':
+                    ops_real.append(TS(keys).keys())
+                elif kind == 'valuesview' and (fam[1] == fam[0] or fam[1] == 'O') and len(keys) <= len(K):
+                    # the values() view of a mapping of the family: integers of the key type in no particular order, repeated
+                    ops_real.append(BT({K[j]: k for j, k in enumerate(keys)}).values())
+                elif kind == 'dictkeys':
+                    ops_real.append({k: None for k in keys}.keys())
+                elif kind == 'itemsless':
+                    ops_real.append(frozenset(keys))
                 elif kind == 'iter':
                     ops_real.append([k for k in keys])        # multiunion wants a sequence of iterables
                 else:
